@@ -812,3 +812,22 @@ func nameHazardValues() []hazardValue {
 	}
 	return out
 }
+
+// retainedValue: the value counterpart of retainedOutput.  A value the library returned stays
+// what it was while later calls of the same family run (no scratch storage shared with them).
+type retainedValue struct {
+	v    cty.Value
+	str  string
+	desc string
+}
+
+var retainedValues = map[string]*retainedValue{}
+
+func checkRetainedValue(u *U, family string, v cty.Value, desc string) {
+	if r := retainedValues[family]; r != nil {
+		if now := goStr(r.v); now != r.str {
+			u.Violation(family+".result-overwritten", family, fmt.Sprintf("the value returned for %s was %s; after the next call (%s) the same value reads %s", r.desc, trunc(r.str, 300), desc, trunc(now, 300)))
+		}
+	}
+	retainedValues[family] = &retainedValue{v: v, str: goStr(v), desc: desc}
+}
